@@ -439,6 +439,67 @@ func runC03(r *core.Run) {
 			r.AddEvals(nb * 4)
 			r.NTCount(nb)
 		}
+		// the ends of the float32 range: magnitudes up to MaxFloat32 wherever every product and partial
+		// sum of the reference stays below it (then the float32 computation cannot overflow either, and
+		// the result must still be proportional), and subnormal magnitudes (nothing can be demanded
+		// of their precision, but they convert to finite values near zero, not to NaN)
+		{
+			rg := core.NewRNG(r.Seed, "C03", "extremes", s.Name)
+			var nb int64
+			fits := func(m refcolor.Mat, v refcolor.Vec) bool {
+				for i := 0; i < 3; i++ {
+					sum := 0.0
+					for j := 0; j < 3; j++ {
+						sum += math.Abs(m[i][j] * v[j])
+					}
+					if sum > 1.5e38 {
+						return false
+					}
+				}
+				return true
+			}
+			for _, scale := range []float64{1e35, 1e36, 1e37, 5e37, 9e37, 1.2e38, 2e38, 3.3e38} {
+				for i := 0; i < 40; i++ {
+					v := refcolor.Vec{scale * rg.Uniform(-1, 1), scale * rg.Uniform(-1, 1), scale * rg.Uniform(-1, 1)}
+					if i%4 == 0 {
+						v = refcolor.Vec{scale, scale / 2, scale / 4}
+					}
+					in := [3]float32{float32(v[0]), float32(v[1]), float32(v[2])}
+					// forward only / inverse only, each where the reference fits
+					if fits(p.fwd, v) {
+						x := s.ToXYZ(linear.RGB{R: in[0], G: in[1], B: in[2]})
+						want := p.fwd.MulV(refcolor.Vec{float64(in[0]), float64(in[1]), float64(in[2])})
+						nb++
+						if d := math.Max(math.Abs(float64(x.X)-want[0]), math.Max(math.Abs(float64(x.Y)-want[1]), math.Abs(float64(x.Z)-want[2]))); !(d <= c03Tol*scale*4) {
+							r.Violate("point", s.Name+"/linear-fwd/extreme", fmt.Sprintf("%s ToXYZ(%v) = %v, linear extension of the unit responses gives %v", s.Name, in, x, want), c03Case{s.Name, "linear-fwd", in, nil})
+						}
+					}
+					if fits(p.inv, v) {
+						c := s.FromXYZ(ciexyz.Color{X: in[0], Y: in[1], Z: in[2]})
+						want := p.inv.MulV(refcolor.Vec{float64(in[0]), float64(in[1]), float64(in[2])})
+						nb++
+						if d := math.Max(math.Abs(float64(c.R)-want[0]), math.Max(math.Abs(float64(c.G)-want[1]), math.Abs(float64(c.B)-want[2]))); !(d <= c03Tol*scale*8) {
+							r.Violate("point", s.Name+"/linear-inv/extreme", fmt.Sprintf("%s ColorFromXYZ(%v) = %v, linear extension of the unit responses gives %v", s.Name, in, c, want), c03Case{s.Name, "linear-inv", in, nil})
+						}
+					}
+				}
+			}
+			for _, scale := range []float32{1e-30, 1e-36, 1.2e-38, 5e-39, 1e-39, 1e-42, 1e-44, 1.4e-45} {
+				for i := 0; i < 12; i++ {
+					in := [3]float32{scale * float32(rg.Uniform(-1, 1)), scale * float32(rg.Uniform(-1, 1)), scale * float32(rg.Uniform(-1, 1))}
+					if i%3 == 0 {
+						in = [3]float32{scale, 0, 0}
+					}
+					kind, msg, _ := c03Point(s, &p, in)
+					nb++
+					if kind != "" {
+						r.Violate("point", s.Name+"/"+kind+"/tiny", msg, c03Case{s.Name, kind, in, nil})
+					}
+				}
+			}
+			r.AddEvals(nb)
+			r.NTCount(nb)
+		}
 		// the exported channels of a colour value are the colour: a value built by one constructor and
 		// then edited (gamut clip, scaling) converts as its channels say, not as it was built
 		{
@@ -495,10 +556,10 @@ func runC03(r *core.Run) {
 		}
 	}
 	if r.Variant == "" {
-		for _, v := range append([]string{"xyzfirst", "xyzfirst+rev@2", "rev@1", "warm@2", "decfirst+encfirst@1", "burst+xyzfirst@4", "burst+xyzfirst+stagger@8"}, burstVariants...) {
+		for _, v := range append([]string{"xyzfirst", "xyzfirst+rev@2", "rev@1", "warm@2", "decfirst+encfirst@1", "genfirst@2", "genfirst+xyzfirst+rev@1", "rot1+genfirst@1", "rot2+genfirst+xyzfirst@3", "burst+xyzfirst@4", "burst+xyzfirst+stagger@8"}, burstVariants...) {
 			r.RunVariantChild(v, 10*time.Minute, false)
 		}
-		r.Obs("fresh_process_variants", []string{"xyzfirst", "xyzfirst+rev@2", "rev@1", "warm@2", "decfirst+encfirst@1"})
+		r.Obs("fresh_process_variants", []string{"xyzfirst", "xyzfirst+rev@2", "rev@1", "warm@2", "decfirst+encfirst@1", "genfirst@2", "genfirst+xyzfirst+rev@1", "rot1+genfirst@1", "rot2+genfirst+xyzfirst@3"})
 	}
 	r.Obs("max_coefficient_error_per_space", maxCoef)
 	r.Obs("max_scaled_linearity_or_roundtrip_error_per_space", worst)
